@@ -31,6 +31,41 @@ CHECKS = {
         "text": "Partial by nature: the theorem shows the modelled algorithm has no order dependence; hash randomisation itself is a runtime mechanism, so the tie is k fresh subprocesses with different hash seeds and warm-up histories whose canonical dumps must equal each other and the model's.",
         "design_ref": "DESIGN.md section 8 / C07",
     },
+    "C04": {
+        "technique": "Lean 4 model of the grammar visitor's decoders (repeat bounds, num-val, char-val flag, defined-as) with theorems + differential: generated ABNF ASTs rendered with random layout, compiled through 7 routes, object graph compared with the AST's denotation",
+        "text": "Decoder lemmas are proved for all digit strings / trees in the Lean model; that the reader's chosen tree abstracts to the AST it was rendered from (unambiguity modulo layout) is validated differentially, not proved.",
+        "design_ref": "DESIGN.md section 8 / C04",
+    },
+    "C10": {
+        "technique": "Lean 4 proof (frame theorem over a registry state machine: operations through class A never change what another class resolves or its rule objects) + definition histories in fresh subprocesses with before/after behaviour snapshots",
+        "text": "Registry model theorems (lookup idempotent, case-insensitive, own-or-core resolution, isolation frame) for all operation sequences; tied to the code by random definition histories (incl. core / meta-grammar name collisions) in fresh subprocesses.",
+        "design_ref": "DESIGN.md section 8 / C10",
+    },
+    "C12": {
+        "technique": "Lean 4 proof (outcomes of the engine model are ok / ParseError / GrammarError only; fuel sufficiency for well-formed grammars) + differential on arbitrary Unicode incl. undefined rules; corrupted rule texts vs the reader model with registry snapshots",
+        "text": "Totality of the model engine; tie: outcome classes on generated grammars/inputs (any other exception class is a failing input by construction) and load atomicity on corrupted texts. The polynomial work bound is not claimed as a theorem.",
+        "design_ref": "DESIGN.md section 8 / C12",
+    },
+    "C13": {
+        "technique": "Lean 4 proof (cache transparency: entries answered after a generation bump are misses, so every answered lookup is correct for the current grammar) + warm-history-vs-fresh-twin differential and model comparison on the final grammar",
+        "text": "Theorem over all histories of the state machine (registry, flags, caches, generation); tie: generated histories (warm-up; public mutation; probe) compared with a twin class built directly in the final state and with the model.",
+        "design_ref": "DESIGN.md section 8 / C13",
+    },
+    "C14": {
+        "technique": "Lean 4 proof (frame theorem: a flag write through a rule that owns its top-level alternation changes no rule that cannot reach it) + obligations on the extracted heap + subprocess import matrix",
+        "text": "Partial by nature (Python's import system is a runtime mechanism): ownership obligations on the regenerated heap plus a subprocess matrix comparing flags and parse results of each module imported alone vs with the others before/after.",
+        "design_ref": "DESIGN.md section 8 / C14",
+    },
+    "C15": {
+        "technique": "Lean 4 verified language-equivalence checker (bisimulation up to flattening/character classes) evaluated on the regenerated reader table and rfc5234/rfc7405 modules + differential on generated ABNF fragments",
+        "text": "Rule-for-rule language equality of the reader table and the compiled rfc7405 module (and rfc5234 modulo char-val) as a kernel-checked obligation over data regenerated from /repo; plus parse_all agreement of the three real recognisers on generated fragments.",
+        "design_ref": "DESIGN.md section 8 / C15",
+    },
+    "C19": {
+        "technique": "Lean 4 verified language-equivalence checker on the regenerated module data per listed pair + distinguishing-string search on the two real rules",
+        "text": "Per pair an equivalence obligation over regenerated data (pairs the checker cannot discharge are listed as differential-only in evidence) plus parse_all agreement on sentences from either side, mutants and exhaustive low code points.",
+        "design_ref": "DESIGN.md section 8 / C19",
+    },
 }
 
 NOT_YET = "check not built yet in this round (work in progress; see DESIGN.md section 8 for the plan)"
